@@ -177,6 +177,8 @@ def _chunk(args):
     pid, chunk, seed = args
     out = []
     for n, beh in chunk:
+        if n % 97 == 0:
+            run_pipeline('f(a "unterminated\n(\n')      # a file with syntax errors earlier in the same process (outcome ignored)
         text, offs = concretize(beh["text"], seed * 1000003 + n, exotic=(pid == "C05"))
         r = {"n": n, "text": text, "viol": None, "drift": None}
         if beh["fault"]["pos"] == 0:
@@ -421,12 +423,30 @@ def c06_one(beh, seed, sandbox):
     exc1, _ = naming.run_main(["-o", out1, os.path.join(d, "faulty.cmake")], sandbox, home)
     page1 = os.path.exists(os.path.join(out1, "faulty.rst"))
     out2 = os.path.join(sandbox, "out2")
-    exc2, _ = naming.run_main(["-o", out2, d], sandbox, home)
+    # the faulty file in the top directory of a tree whose sub-directory (healthy) is visited after it
+    os.makedirs(os.path.join(d, "sub"), exist_ok=True)
+    with open(os.path.join(d, "sub", "fine.cmake"), "w") as fh:
+        fh.write("function(ok2)\nendfunction()\n")
+    extra = []
+    if seed % 4 == 0:
+        # every include_undocumented_* option off (a settings file): faults must be noticed all the same
+        sfile = os.path.join(sandbox, "alloff.yaml")
+        with open(sfile, "w") as fh:
+            fh.write("input:\n" + "".join("  include_undocumented_%s: false\n" % k for k in
+                     ("function", "macro", "cpp_class", "cpp_attr", "cpp_constructor", "cpp_member", "ct_add_test", "add_test",
+                      "ct_add_section", "option")) + "logging:\n  version: 1\n")
+        extra = ["-s", sfile]
+    exc2, _ = naming.run_main(extra + ["-r", "-o", out2, d], sandbox, home)
     page2 = os.path.exists(os.path.join(out2, "faulty.rst"))
+    # several inputs on one command line, the faulty one not last
+    out3 = os.path.join(sandbox, "out3")
+    exc3, _ = naming.run_main(extra + ["-o", out3, os.path.join(d, "faulty.cmake"), os.path.join(d, "good.cmake")], sandbox, home)
+    page3 = os.path.exists(os.path.join(out3, "faulty.rst"))
     toks, errs = real_lex(text)
     skipped = bool(errs)
     obs = {"single_file": {"failed": exc1 is not None, "exc": exc1, "page_written": page1},
            "directory": {"failed": exc2 is not None, "exc": exc2, "page_written": page2},
+           "two_inputs": {"failed": exc3 is not None, "exc": exc3, "page_written": page3},
            "lexer_skipped_characters": skipped}
     lookalike = any(nm == "Unquoted_argument" and _re.match(r"^\[(=*)\[", text[a:b + 1])
                     and not _re.match(r"^\[(=*)\[.*\]\1\]$", text[a:b + 1], _re.S) for nm, a, b in toks)
@@ -439,10 +459,10 @@ def c06_one(beh, seed, sandbox):
     if ref_rejects:
         def status_ok(exc):
             return exc is not None and not exc.startswith("SystemExit: 0") and not exc.startswith("SystemExit: None")
-        if not status_ok(exc1) or page1 or not status_ok(exc2) or page2:
+        if not status_ok(exc1) or page1 or not status_ok(exc2) or page2 or not status_ok(exc3) or page3:
             return {"verdict": "viol", "case": case, "expected": "error reported, non-zero status, no .rst for the faulty file",
                     "observed": obs, "why": "an invalid file is accepted or documentation is written for it", "drift": drift}
-    if skipped and (page1 or page2):
+    if skipped and (page1 or page2 or page3):
         return {"verdict": "viol", "case": case, "expected": "no documentation from a view of the file with skipped characters",
                 "observed": obs, "why": "the lexer skipped source characters and a page was still written", "drift": drift}
     return {"verdict": "ok" if ref_rejects else "harmless", "drift": drift, "case": case}
